@@ -206,8 +206,22 @@ theorem public_key_is_g_over_f (chk : Bool) (d : Nat) (hd : d ≤ 10) (f g : Lis
     (lf : f.length = 2 ^ d) (lg : g.length = 2 ^ d) (cf : ∀ x ∈ f, x < 12289) (cg : ∀ x ∈ g, x < 12289)
     (hinv : ∀ x ∈ ntt d f, x ≠ 0) :
     ∃ finv h, Zq.batchInv chk (ntt d f) = .ok finv ∧ intt d (hadamard (ntt d g) finv) = .ok h ∧
-      h.length = 2 ^ d ∧ (∀ x ∈ h, x < 12289) ∧ negacyc (2 ^ d) h f = g :=
-  Ntt.public_key_is_g_over_f chk d hd f g lf lg cf cg hinv
+      h.length = 2 ^ d ∧ (∀ x ∈ h, x < 12289) ∧ negacyc (2 ^ d) h f = g := by
+  obtain ⟨finv, h, h1, h2, h3, h4, h5, _⟩ := Ntt.public_key_is_g_over_f chk d hd f g lf lg cf cg hinv
+  exact ⟨finv, h, h1, h2, h3, h4, h5⟩
+
+/-- **both relations verification needs follow from the NTRU equation**: for every (f, g, F, G) with f⋆G − g⋆F = q
+    over ℤ and an NTT-invertible f, the derived public key satisfies h ⋆ f = g and h ⋆ F = G mod q — so the
+    hypotheses of C01's `honest_signature_verifies` hold for every valid trapdoor, not only for keys that were
+    checked one by one -/
+theorem derived_key_relations (chk : Bool) (d : Nat) (hd : d ≤ 10) (f g cF cG : List Int)
+    (lf : f.length = 2 ^ d) (lg : g.length = 2 ^ d) (lF : cF.length = 2 ^ d) (lG : cG.length = 2 ^ d)
+    (hntru : RingZ.ntruLhs (2 ^ d) f g cF cG = (12289 : Int) :: List.replicate (2 ^ d - 1) 0)
+    (hinv : ∀ x ∈ ntt d (toZq f), x ≠ 0) :
+    ∃ finv h, Zq.batchInv chk (ntt d (toZq f)) = .ok finv ∧ intt d (hadamard (ntt d (toZq g)) finv) = .ok h ∧
+      h.length = 2 ^ d ∧ (∀ x ∈ h, x < 12289) ∧
+      negacyc (2 ^ d) h (toZq f) = toZq g ∧ negacyc (2 ^ d) h (toZq cF) = toZq cG :=
+  Ntt.derived_key_relations chk d hd f g cF cG lf lg lF lG hntru hinv
 
 /-- non-vacuity (n = 2): f = 1 + X has no zero slot, g = 3 + 2X; the derived h satisfies h ⋆ f = g -/
 example : (ntt 1 [1, 1]).all (· != 0) = true ∧
